@@ -1214,11 +1214,15 @@ impl Schedule {
 /// `self.network.vehicle_types().iter().collect::<Vec<_>>().into_iter().flat_map(|vt| self.vehicles_iter(vt))` with
 /// vehicles_iter(vt) = `self.vehicle_ids_grouped_and_sorted[&vt].iter().copied()`: no other field of the schedule is read.
 /// Without it NO listing conjunct of dp_ok could be stated for the result (sched_vehicles is uninterpreted per schedule).
-pub axiom fn axiom_sched_vehicles_frame(a: &Schedule, b: &Schedule)
+pub proof fn axiom_sched_vehicles_frame(a: &Schedule, b: &Schedule)
     requires
         sched_types(a) == sched_types(b),
         a.vehicle_ids_grouped_and_sorted@ == b.vehicle_ids_grouped_and_sorted@,
-    ensures sched_vehicles(a) == sched_vehicles(b);
+    ensures sched_vehicles(a) == sched_vehicles(b),
+{
+    // no longer an assumption: sched_vehicles is defined over the vehicle types and the id lists (env/schedule_shim.vs)
+    lemma_sched_vehicles_frame(a, b);
+}
 
 // ---- the contract of Transition::new_fast that slices/new_fast.vs justifies -------------------------------------------------
 /// PRECONDITION of Transition::new_fast in slices/new_fast.vs (text copied from env/new_fast_shim.vs): every given vehicle has an
